@@ -281,6 +281,23 @@ def name_record(record) -> None:
 # ---------------------------------------------------------------------------------------------
 
 def run_world(case, order, prng):
+    stages = _run_world_once(case, order, random.Random(prng.random()))
+    if case.get("earlier_subregion") and "detection_results_json" in stages:
+        # the same replay again in this process on a heap fragmented otherwise: what is reported must not move with
+        # the addresses the objects happen to get
+        repeats = []
+        for extra in range(3):
+            fragment_heap(random.Random(f"repeat/{os.environ.get('PYTHONHASHSEED', '')}/{order}/{extra}"), per_class=16)
+            again = _run_world_once(case, order, random.Random(prng.random()))
+            text = again.get("detection_results_json")
+            repeats.append(hashlib.sha1(text.encode()).hexdigest()[:12] if isinstance(text, str) else "crash")
+        first = hashlib.sha1(stages["detection_results_json"].encode()).hexdigest()[:12] \
+            if isinstance(stages["detection_results_json"], str) else "crash"
+        stages["detection_results_repeated_in_process"] = ["same" if digest == first else digest for digest in repeats]
+    return stages
+
+
+def _run_world_once(case, order, prng):
     from antismash.common.hmm_rule_parser import cluster_prediction as CP
     from antismash.detection import hmm_detection as HD
     from vf.gen import worlds as W
